@@ -62,6 +62,9 @@ func (o opts) list() []geom.TWKBWriterOption {
 	if o.close {
 		l = append(l, geom.TWKBCloseRings())
 	}
+	// options are independent settings: their order must not matter (rotate by a value derived from them)
+	rot := (o.pXY + 8 + o.pZ + 2*o.pM + len(o.idList)) % len(l)
+	l = append(l[rot:], l[:rot]...)
 	return l
 }
 
